@@ -39,8 +39,11 @@ def dom(tname):
 
 
 def _term(v):
-    if isinstance(v, (SInt, SBool, SReal, SOpaque)):
+    from pyvc.values import SStr
+    if isinstance(v, (SInt, SBool, SReal, SOpaque, SStr)):
         return v.t
+    if isinstance(v, str):
+        return z3.StringVal(v)
     if isinstance(v, bool):
         return z3.BoolVal(v)
     if isinstance(v, int):
@@ -124,3 +127,171 @@ def install_scalar_contracts(I, names=None):
         T = getattr(B, tname)
         I.override(raw(T, 'send'), send_contract(tname), kind='contract')
         I.override(raw(T, 'read'), read_contract(tname), kind='contract')
+
+
+# ------------------------------------------------------------------------------------------
+# variable-length types at atom level: VarInt/VarLong (S2), String, UUID, byte arrays, NBT
+# ------------------------------------------------------------------------------------------
+def peek_reader(obj):
+    """The ByteReader behind a ghost stream / PacketBuffer, or None."""
+    from pyvc.models import InStream, SymBytesIO, ByteReader
+    if isinstance(obj, InStream):
+        return obj.reader
+    if isinstance(obj, SymBytesIO):
+        return obj.reader
+    b = getattr(obj, '__dict__', {}).get('bytes')
+    if isinstance(b, SymBytesIO):
+        return b.reader
+    return None
+
+
+def varint_length(v, mode):
+    """|enc(v)| for v >= 0 as an int or SInt (ite chain over the ten thresholds)."""
+    if isinstance(v, int):
+        from spec import wire
+        return wire.varint_len(v)
+    from pyvc.values import ite
+    n = 10
+    for k in range(9, 0, -1):
+        n = ite(v < (1 << (7 * k)), k, n)
+    return n
+
+
+def _key_of(v):
+    if isinstance(v, SBytes):
+        return tuple(('lit', a) if isinstance(a, bytes) else (('byte', a[1]) if isinstance(a, tuple) else ('blob', a.key))
+                     for a in v.atoms)
+    if isinstance(v, (bytes, bytearray)):
+        return (('lit', bytes(v)),)
+    if isinstance(v, str):
+        return z3.StringVal(v)
+    if isinstance(v, (tuple, list)):
+        return tuple(_key_of(x) for x in v)
+    return _term(v)
+
+
+def var_atom(tname, v, length):
+    return Blob(('enc', tname, _key_of(v)), length, decoded=v)
+
+
+def install_varint_contracts(I, limit_bits=None):
+    """S2 at atom level, proved at byte level in C03:
+         send(v, s): v < 0 raises ValueError; else s.out' = s.out || Enc(VarInt, v)
+         read(f): next atom Enc(VarInt, v) -> v, consuming it; anything else: the real body is executed."""
+    for T in (B.VarInt,):
+        raw_send, raw_read = raw(T, 'send'), raw(T, 'read')
+
+        def send_model(I_, value, socket, _raw=raw_send):
+            if not isinstance(value, (SInt, int)) or isinstance(value, bool):
+                if isinstance(value, SBool):
+                    value = I_.call_value(int, [value], {})
+                else:
+                    return I_.call_function(_raw, [value, socket], {})
+            if I_.truth(value < 0):
+                raise ValueError('Cannot encode a negative value as a VarInt')
+            atom = var_atom('VarInt', value, varint_length(value, I_.E.int_mode))
+            I_.call_value(I_.getattr_(socket, 'send'), [SBytes([atom])], {})
+            return None
+
+        def read_model(I_, cls, file_object, _raw=raw_read):
+            rd = peek_reader(file_object)
+            if rd is not None and rd.rest and isinstance(rd.rest[0], Blob) and rd.rest[0].key[:2] == ('enc', 'VarInt'):
+                atom = rd.rest.pop(0)
+                v = atom.decoded
+                # VarInt.read has max_bytes 5, VarLong 10: longer encodings raise ValueError("too long")
+                if I_.truth(atom.length > cls.max_bytes if not isinstance(atom.length, int) else atom.length > cls.max_bytes):
+                    raise ValueError('Tried to read too long of a VarInt')
+                return v
+            return I_.call_function(_raw, [cls, file_object], {})
+        I.override(raw_send, send_model, kind='contract')
+        I.override(raw_read, read_model, kind='contract')
+
+
+def _simple_var_type(tname, length_of, check=None):
+    def send_model(I_, value, socket):
+        if check is not None:
+            check(I_, value)
+        I_.call_value(I_.getattr_(socket, 'send'), [SBytes([var_atom(tname, value, length_of(I_, value))])], {})
+
+    def make_read(raw_read):
+        def read_model(I_, file_object):
+            rd = peek_reader(file_object)
+            if rd is not None and rd.rest and isinstance(rd.rest[0], Blob) and rd.rest[0].key[:2] == ('enc', tname):
+                return rd.rest.pop(0).decoded
+            return I_.call_function(raw_read, [file_object], {})
+        return read_model
+    return send_model, make_read
+
+
+def _len_bytes(I_, v):
+    return I_.call_value(len, [v], {})
+
+
+def install_string_contracts(I):
+    """String / UUID / byte arrays / NBT as single typed atoms (byte-level proofs: C02)."""
+    from pyvc.values import SStr, utf8_len
+
+    def str_len(I_, s):
+        n = utf8_len(s.t, I_.E.int_mode) if isinstance(s, SStr) else len(s.encode('utf-8'))
+        return varint_length(n, I_.E.int_mode) + n
+
+    def str_check(I_, s):
+        if not isinstance(s, (str, SStr)):
+            raise AttributeError("%r object has no attribute 'encode'" % type(s).__name__)
+
+    def arr_len(I_, v):
+        n = _len_bytes(I_, v)
+        return varint_length(n, I_.E.int_mode) + n
+
+    def arr_check(I_, v):
+        if not isinstance(v, (bytes, bytearray, SBytes)):
+            raise TypeError('a bytes-like object is required')
+
+    specs = {
+        'String': (str_len, str_check),
+        'UUID': (lambda I_, v: 16, str_check),
+        'VarIntPrefixedByteArray': (arr_len, arr_check),
+        'TrailingByteArray': (_len_bytes, arr_check),
+        'ShortPrefixedByteArray': (lambda I_, v: _len_bytes(I_, v) + 2, arr_check),
+        'NBT': (lambda I_, v: I_.E.new_int('nbt.len', 1, (1 << 31) - 1), None),
+    }
+    ATOM_LENGTH.update({k: v[0] for k, v in specs.items()})
+    for tname, (lf, chk) in specs.items():
+        T = getattr(B, tname)
+        send_model, make_read = _simple_var_type(tname, lf, chk)
+        I.override(raw(T, 'send'), send_model, kind='contract')
+        I.override(raw(T, 'read'), make_read(raw(T, 'read')), kind='contract')
+
+
+ATOM_LENGTH = {}
+
+
+def make_atom(I, tname, v):
+    """The typed atom Enc(T, v) exactly as the send contract of T emits it (for reference encoders)."""
+    if tname in SCALARS:
+        return enc_atom(tname, v)
+    if tname in ('VarInt', 'VarLong'):
+        return var_atom('VarInt', v, varint_length(v, I.E.int_mode))
+    return var_atom(tname, v, ATOM_LENGTH[tname](I, v))
+
+
+def install_all_codecs(I):
+    install_scalar_contracts(I)
+    install_varint_contracts(I)
+    install_string_contracts(I)
+
+
+def install_buffer_model(I):
+    """io.BytesIO -> SymBytesIO (assumed contract S1 for in-memory buffers; PacketBuffer's own five methods are
+    executed from their real bodies on top of it)."""
+    import io
+    from pyvc.models import SymBytesIO
+    I.override(io.BytesIO, lambda I_, *a: SymBytesIO(I_, *a), kind='assumed')
+
+
+_install_all_prev = install_all_codecs
+
+
+def install_all_codecs(I):
+    _install_all_prev(I)
+    install_buffer_model(I)
